@@ -29,6 +29,7 @@ package util
 //@ pure func ExecKVSetRollback
 //@ pure func CheckBlock
 //@ pure func DelDupKey
+//@ pure func CheckTxDup
 //@ pure func (*github.com/33cn/chain33/types.ReceiptData).OutputReceiptDetails
 
 // sigKnown(tx): the node already knows that tx carries a correct signature. The only way to know it
